@@ -87,6 +87,23 @@ def build_inputs(tier):
         for t in (toks if tier != "quick" else r.sample(toks, min(5, len(toks)))):
             pre = "\n".join(lines[: t.start[0] - 1] + [lines[t.start[0] - 1][: t.start[1]]])
             cases.append(("prefix", pre + "\n"))
+    # precedence boundaries: random expression/statement trees rendered WITHOUT precedence parentheses
+    import ast as _ast
+
+    for i in range(1500 if tier == "quick" else 40000):
+        g = pyprog.G(r, fstrings=False, maxdepth=2)
+        try:
+            if i % 3 == 0:
+                tree = _ast.Module(body=[g.stmt(2)], type_ignores=[])
+            else:
+                tree = _ast.Module(body=[_ast.Expr(value=g.expr(0))], type_ignores=[])
+            _ast.fix_missing_locations(tree)
+            cases.append(("noparens", mutate.unparse_no_parens(tree) + "\n"))
+        except Exception:  # noqa: BLE001
+            continue
+    for p in progs[: (120 if tier == "quick" else 100000)]:
+        for d in mutate.token_deletions(p):
+            cases.append(("tokdel", d if d.endswith("\n") else d + "\n"))
     for rc in corpus.regress("C02"):
         cases.insert(0, ("regress", rc["src"]))
     out = []
